@@ -13,7 +13,8 @@
  *     N <sess> <mid> <code> <tok>         peer's NON with that mid arrives (not a reply to the CON)
  *     Q                                   dump the send queue (absolute deadlines)
  *   output items (times relative to the start of the case):
- *     s:<ret>  tx:<t>:<sess>:<bytes>  nk:<t>:<sess>:<reason>:<mid>:<has_pdu>  w:<t>:<ms>
+ *     s:<ret>  tx:<t>:<sess>:<bytes>  nk:<t>:<sess>:<reason>:<mid>:<has_pdu>
+ *     w:<t>:<ms>:<deadline of the queue head or -1>
  *     q:<t>:<deadline>/<sess>/<mid>/<cnt>,...
  *
  *   calc <at_ip> <at_fp> <arf_ip> <arf_fp> <r>   -> coap_calc_timeout (leaf sweep)
@@ -138,8 +139,13 @@ static void c06(void) {
       i += 7;
     } else if (c == 'T') {
       unsigned w = vn_prepare(g_ctx);
+      long long hd = -1;
+      coap_lock_lock(g_ctx, return);
+      if (g_ctx->sendqueue)
+        hd = (long long)(g_ctx->sendqueue_basetime + g_ctx->sendqueue->t - g_t0);
+      coap_lock_unlock(g_ctx);
       item_sep();
-      printf("w:%llu:%u", (unsigned long long)(vn_now - g_t0), w);
+      printf("w:%llu:%u:%lld", (unsigned long long)(vn_now - g_t0), w, hd);
       i += 1;
     } else if ((c == 'K' || c == 'R') && i + 2 < vntok) {
       int s = atoi(vtok[i + 1]) % g_nsess;
